@@ -161,18 +161,17 @@ theorem answer_fstatat (s : RFS) (d : Fd) (n : Bytes) (f : Nat) :
 theorem effect_fstatat (s : RFS) (d : Fd) (n : Bytes) (f : Nat) : s.effect (.fstatat d n f) = s := rfl
 theorem effect_readlinkAbs (s : RFS) (n : Bytes) : s.effect (.readlinkAbs n) = s := rfl
 
-theorem exec_probe (s : RFS) (n : Nat) (cand : Bytes) (rest : List Bytes) :
-    exec s (Sys.freeze.probe n (cand :: rest)) = (s, some (some cand)) := by
+theorem exec_probe (s : RFS) (cand : Bytes) (rest : List Bytes) :
+    exec s (Sys.freeze.probe (cand :: rest)) = (s, cand) := by
   rw [Sys.freeze.probe.eq_2, exec_call, answer_fstatat, effect_fstatat]
   rfl
 
-theorem exec_freeze (s : RFS) (n : Nat) (fd : Fd) : exec s (Sys.freeze (n + 1) fd) = (s, true) := by
-  rw [Sys.freeze.eq_2]
+theorem exec_freeze (s : RFS) (fd : Fd) : exec s (Sys.freeze fd) = (s, ()) := by
+  unfold Sys.freeze
   have h1 : exec s Sys.gettid = (s, 1) := rfl
   rw [exec_bind_eq _ h1]
   unfold Sys.threadSelfCandidates
-  rw [exec_bind_eq _ (exec_probe s n _ _)]
-  simp only []
+  rw [exec_bind_eq _ (exec_probe s _ _)]
   cases Sys.procSubpath fd with
   | error e => rfl
   | ok sub => rfl
@@ -180,8 +179,7 @@ theorem exec_freeze (s : RFS) (n : Nat) (fd : Fd) : exec s (Sys.freeze (n + 1) f
 theorem exec_failWith {α : Type} (s : RFS) (d : Fd) (e : Nat) :
     exec s (Sys.failWith [d] e : M α) = (s, Except.error (Err.os e)) := by
   unfold Sys.failWith Sys.failWith.go
-  refine (exec_bind_eq _ (exec_freeze s 2 d)).trans ?_
-  simp only [↓reduceIte]
+  refine (exec_bind_eq _ (exec_freeze s d)).trans ?_
   unfold Sys.failWith.go
   rfl
 
